@@ -2,7 +2,7 @@
 coq/bufown: the discipline checker (sound + complete for every trace) and the instrumented response-writer model;
 ocaml/bufown: line-protocol driver of the extracted checker + model; harness/cmd/bufown: instrumented allocator behind
 the public seams (mempool.DefaultMemPool, nbhttp/nbio Config.BodyAllocator), real code driven through HTTP exchanges,
-WebSocket connections and the nbio.Conn write queue."""
+WebSocket connections, the nbio.Conn write queue and a real nbhttp engine."""
 from props import EXTRACT_TB, NATINT_TB, n
 
 MODEL = ("bufown", "Extract.v", ["bomodel"], "main.ml")
@@ -20,7 +20,8 @@ def c11(c):
         "reads through stale pointers that never reach a connection or a handler are invisible (only Malloc/Append/Realloc/Free and "
         "the slices handed to conn.Write / OnMessage / OnDataFrame are observed; other stale reads show only as poison in outputs); "
         "sync.Pool internals and the three library allocators themselves are C20's subject",
-        "nbconn scenario: real loopback TCP and the kernel's scheduling (the discipline oracles hold for every schedule; the event order may differ between runs)",
+        "nbconn and engine scenarios: real loopback TCP, the kernel's and the Go scheduler's interleavings (the discipline oracles must hold for "
+        "every interleaving; the event order may differ between runs, the verdicts do not depend on it)",
     ]
     c.assumptions += [
         "theorems: checker soundness/completeness for every trace; discipline, distinctness, liveness and release of the response writer's buffers "
@@ -53,7 +54,8 @@ MANIFEST = {
              "mempool.Allocator is installed as mempool.DefaultMemPool and Config.BodyAllocator (nbhttp and nbio); it records the event trace of the REAL code with stable ids, "
              "keeps a live map, poisons on Free, never recycles; the real Parser+ServerProcessor+Response+BodyReader (pipelined requests, all segmentations, parse errors, close "
              "mid-message, write failure at every k), real websocket.Conn in both roles (thresholds, fragments, compression, limits, invalid frames, send queue with a slow "
-             "connection, close races) and the nbio.Conn write queue on a real engine are driven; every trace goes through the extracted checker (verdict must equal the live "
+             "connection, close races), the nbio.Conn write queue on a real engine and a real nbhttp engine (non-blocking and blocking mode: upgrade of an *nbio.Conn, executor "
+             "dispatch with payload release, pooled read buffer) are driven; every trace goes through the extracted checker (verdict must equal the live "
              "map's), the response runs are compared event by event with the model, and double free / use after free / append after free / foreign free / write after free / "
              "poison or never-written memory on the wire or in delivered messages are reported per call site.",
         note="Partial: only the response writer has an instrumented model and a theorem; the other components are decided by the oracles on the real code. Reads through stale "
